@@ -4,6 +4,6 @@ PROP = "C02"
 def run(tier, seed):
     return _dbprop.run(PROP, tier, seed, [('crash', 24, 160), ('alter', 6, 60)],
         ['same images as C01; the crash read must equal the committed state exactly - with or without the one transaction whose commit was in flight, as a whole', 'recorded findings: CheckpointNotAtomic, CheckpointLeaksOpenTransaction'],
-        'histories keep sessions open across the crash point, roll some back and drop some; non-trivial = an acknowledged commit precedes the crash point (losers are present in most histories)', mc=None, pre=dbcheck.model_check_recovery, nontrivial_key='nontrivial', extra={"crash": ["--points", "90" if tier == "quick" else "100000"]})
+        'histories keep sessions open across the crash point, roll some back and drop some; non-trivial = an acknowledged commit precedes the crash point (losers are present in most histories)', mc=None, level='fault_enumeration', pre=dbcheck.model_check_recovery, nontrivial_key='nontrivial', extra={"crash": ["--points", "90" if tier == "quick" else "100000"]})
 def replay(path, seed):
     return dbcheck.replay_trace(PROP, path, seed)
